@@ -497,7 +497,7 @@ func (inst *Instance) panicValue(ev string, kind int) interface{} {
 	case 7:
 		return &exitishError{code: 3 + len(ev)}
 	case 8:
-		return namedInt(7)
+		return namedInt(7000 + len(inst.Proc.Events))
 	case 9:
 		return stringerVal{ev}
 	}
